@@ -94,10 +94,11 @@ Theorem C10_on_fragment :
   (forall kin walias subquery ali x,
      rquery kin walias subquery ali x = rmap (sflat (stmt_q kin x)) (stoks kin walias subquery ali x))
   /\ (forall kin walias subquery ali x ts, stoks kin walias subquery ali x = Ok ts -> Forall (sref_ok (q_wns x)) ts)
-  (* (3) on the fragment: two or more sources of its own, or the foreign reference sits in a plain WHERE criterion *)
+  (* (3) on the fragment: two or more sources of its own, or the foreign reference sits anywhere in the WHERE criterion
+     item (any mix of AND/OR/NOT/IN/comparison/function items; not inside a nested sub-query) *)
   /\ (forall x, 1 < scope_size x -> q_wns x = true)
-  /\ (forall x w, is_sud x = true -> where_of x = Some (IT w) ->
-        existsb (out_of_scope (q_scope x) (q_srcs x)) (field_tables w) = true -> q_wns x = true)
+  /\ (forall x w, is_sud x = true -> where_of x = Some w ->
+        existsb (out_of_scope (q_scope x) (q_srcs x)) (item_tables w) = true -> q_wns x = true)
   (* (4) holds in full *)
   /\ (forall qc first rest, sch_sql qc (init_schema first rest) = schema_sql qc (first :: rest))
   /\ (forall c t, table_sql c t
